@@ -114,3 +114,84 @@ def run_cuts(chk, binary, containers=("plain", "noschema", "bzip2", "crypto"), s
                 break
     chk.add_eval(ncuts)
     chk.cov["library_cuts"] = ncuts
+
+
+def mutations(b, rng, budget):
+    out = []
+    n = len(b)
+    stride = max(1, n // 120)
+    for i in range(0, n, stride):
+        for v in (0, 1, 2, 0x7f, 0x80, 0xff, b[i] ^ 1, (b[i] + 1) & 255):
+            if v != b[i]:
+                out.append(b[:i] + bytes([v]) + b[i + 1:])
+    for off in range(0, min(n - 7, 96)):
+        for l in (0, 1, 2, 3, 255, 256, 65535, 65536, 1 << 20, (1 << 32) + 1, (1 << 62) + 1, (1 << 64) - 1, n, n + 1):
+            out.append(b[:off] + l.to_bytes(8, "little") + b[off + 8:])
+    for k in range(min(n, 48)):
+        out.append(b[:k])
+    for _ in range(48):
+        m = bytearray(b)
+        for _ in range(3):
+            if m:
+                m[rng.randrange(len(m))] = rng.randrange(256)
+        out.append(bytes(m))
+    for _ in range(16):
+        out.append(bytes(rng.randrange(256) for _ in range(rng.randint(0, 40))))
+    rng.shuffle(out)
+    return out[:budget]
+
+
+def run_malformed(chk, binary, rng, budget, known=()):
+    """C06 for the library corpus: crafted inputs never panic (allocation failures on absurd declared lengths excepted),
+    never kill the process otherwise, and a loaded value's own encoding is never longer than the input consumed."""
+    cases = load_cases(binary)
+    bare = {}
+    obs0 = C.run_harness(binary, ["L_%s lib_rt %s bare" % (c["name"], c["name"]) for c in cases])
+    lines, meta = [], {}
+    n = 0
+    for c in cases:
+        o = obs0.get("L_%s" % c["name"], "")
+        if not o.startswith("OK "):
+            continue
+        hx = o.split(" ")[1]
+        b = bytes.fromhex("" if hx == "-" else hx)
+        if len(b) > 5000:
+            continue
+        for m in mutations(b, rng, budget):
+            n += 1
+            cid = "M%d" % n
+            lines.append("%s lib_load %s %s" % (cid, c["name"], m.hex() or "-"))
+            meta[cid] = (c["name"], m)
+    obs = C.run_harness(binary, lines, timeout=1800, mem_gb=3)
+    classes = {}
+    hits = {}
+    for cid, (name, m) in meta.items():
+        o = obs.get(cid, "MISSING")
+        p = o.split(" ")
+        key = p[0] + ("_oom" if (p[0] == "PANIC" and ("allocat" in o or "capacity_overflow" in o)) or o.startswith("ABORT oom") else "")
+        classes[key] = classes.get(key, 0) + 1
+        what = None
+        if p[0] == "PANIC" and not key.endswith("_oom"):
+            what = "panics (%s)" % o[6:80]
+        elif p[0] == "ABORT" and not key.endswith("_oom"):
+            what = "kills the process (%s)" % o[:80]
+        elif p[0] in ("TIMEOUT", "MISSING"):
+            what = "does not return (%s)" % o[:40]
+        elif p[0] == "OK" and len(p) == 3 and p[2].isdigit() and int(p[2]) > int(p[1]) and not name.startswith(("bitvec", "bitset")):
+            # (BitVec/BitSet are exempt: their current encoding stores whole 32-bit words, so a value read from the old
+            #  byte-granular format legitimately re-encodes up to 3 bytes longer)
+            what = "returns a value whose own encoding (%s bytes) is longer than the %s bytes consumed: it claims more than the input could have encoded" % (p[2], p[1])
+        elif p[0] == "OK" and len(p) == 3 and not p[2].isdigit():
+            what = "returns a value that cannot be saved again (%s)" % p[2]
+        if what:
+            k = [kf for kf, names in known if name in names]
+            if k:
+                hits.setdefault(k[0], 0)
+                hits[k[0]] += 1
+            else:
+                chk.violations.append(("loading crafted bytes into library type case %s %s" % (name, what), {"harness_line": "%s lib_load %s %s" % (cid, name, m.hex() or "-"), "observed": o[:300]}))
+        chk.distinct.add(("libmal", name, key))
+    chk.add_eval(len(meta))
+    chk.cov["library_malformed_inputs"] = len(meta)
+    chk.cov["library_malformed_outcomes"] = classes
+    return hits
